@@ -628,6 +628,17 @@ func scenC15(c *ctx) {
 			}
 		}
 	}
+	// sibling crypto functions: the same data-input part under every hash x digit count, back to back (a parser
+	// that remembers anything about one string must not let it influence the reading of the next)
+	for i := 0; i < c.n(25, 400); i++ {
+		name := c.grammarName()
+		data := name[strings.LastIndex(name, ":")+1:]
+		for _, h := range hashes {
+			for _, d := range []int{6, 8, 4, 10, 0, 3, 11, 7} {
+				emit("sibling", fmt.Sprintf("OCRA-1:HOTP-%s-%d:%s", h, d, data), false)
+			}
+		}
+	}
 	// all time tokens once with a parsed-friendly prefix (minutes / hours factors)
 	for _, t := range ts[1:] {
 		emit("time", "OCRA-1:HOTP-SHA1-6:QN08-"+t, false)
